@@ -315,10 +315,23 @@ def check_dump_buffer_fits(ctx, rule):
                 maxlabel = fl["count"]
     ctx.need(maxlabel, "cannot determine MAX_PCF_LABEL")
     sites = []
+    eff = effects.Effects(prog)
     for f in prog.fns_in("src/emu/ovnidump.c"):
         for i in f.calls("model_event_print"):
             a = f.nodes[i]["args"]
-            sites.append((f, i, f.val(a[3]) if len(a) > 3 else None))
+            v = f.val(a[3]) if len(a) > 3 else None
+            if v is None:
+                # the length goes through a local: evaluate the function up to the call
+                seen = []
+                ex = absint.Explorer(prog, effects=eff, loop_bound=3, max_paths=4000,
+                                     summaries={"model_event_print": lambda ex_, st, a_, f_, e: (seen.append(a_[3] if len(a_) > 3 else TOP), [(INT(0), {})])[1]})
+                try:
+                    ex.run(f, [PTR("A%d" % j) if p_["ctype"].rstrip().endswith("*") else TOP for j, p_ in enumerate(f.params)], {DBG: INT(0)})
+                except AnalysisBroken:
+                    pass
+                vals = {x[1] for x in seen if x[0] == "int"}
+                v = vals.pop() if len(vals) == 1 and all(x[0] == "int" for x in seen) else None
+            sites.append((f, i, v))
     ctx.need(sites and all(s[2] is not None for s in sites), "ovnidump: cannot evaluate the buffer length given to model_event_print")
     need = longest + maxlabel
     for f, i, v in sites:
